@@ -164,7 +164,7 @@ def handle (line : String) : Except String Json := do
       ("idents", match dec with
         | none => .null
         | some i => .arr ((allIdents (strip i .noFrom .arg q)).map jIdent).toArray),
-      ("noSkip", noSkip q), ("allTables", .arr ((allTables .arg q).map jNames).toArray)]
+      ("skipLeafOnly", skipLeafOnly q), ("allTables", .arr ((allTables .arg q).map jNames).toArray)]
   else if op == "strip" then
     let db ← getName (← j.getObjVal? "db")
     let par := getPar (← (← j.getObjVal? "par").getStr?)
